@@ -32,6 +32,27 @@ pub struct Cli;
 pub fn child_main(args: &[String]) -> ! {
     use clap::Parser;
     let sim: SimParams = serde_json::from_str(&args[0]).expect("sim params");
+    // output-channel fault, decided by the parent's seed and applied before the CLI writes its first byte (so the
+    // outcome does not depend on how fast a reader is): stdout is a pipe nobody reads (EPIPE) or a full device (ENOSPC)
+    match std::env::var("PLSIM_STDOUT_FAULT").ok().as_deref() {
+        Some("closed-pipe") => unsafe {
+            let mut fds = [0i32; 2];
+            if pipe(fds.as_mut_ptr()) == 0 {
+                close(fds[0]);
+                dup2(fds[1], 1);
+                close(fds[1]);
+            }
+        },
+        Some("dev-full") => {
+            use std::os::fd::AsRawFd;
+            if let Ok(f) = std::fs::OpenOptions::new().write(true).open("/dev/full") {
+                unsafe {
+                    dup2(f.as_raw_fd(), 1);
+                }
+            }
+        }
+        _ => {}
+    }
     let argv: Vec<String> = std::iter::once("pytest-language-server".to_string()).chain(args[2..].iter().cloned()).collect();
     let (oc, _) = simrt::run(sim.cfg(None), move || match crate::Cli::try_parse_from(argv) {
         Ok(cli) => match cli.command {
@@ -53,9 +74,26 @@ pub fn child_main(args: &[String]) -> ! {
     std::process::exit(0)
 }
 
+extern "C" {
+    fn pipe(fds: *mut i32) -> i32;
+    fn dup2(a: i32, b: i32) -> i32;
+    fn close(fd: i32) -> i32;
+}
+
 pub fn run_child(sim: &SimParams, argv: &[&str]) -> Result<(i32, String, String), String> {
+    run_child_faulty(sim, argv, None)
+}
+
+/// `stdout_fault`: None | Some("closed-pipe") | Some("dev-full").  A child killed by a signal reports -(signal number).
+pub fn run_child_faulty(sim: &SimParams, argv: &[&str], stdout_fault: Option<&str>) -> Result<(i32, String, String), String> {
+    use std::os::unix::process::ExitStatusExt;
     let exe = std::env::current_exe().map_err(|e| e.to_string())?;
-    let o = std::process::Command::new(exe)
+    let mut cmd = std::process::Command::new(exe);
+    match stdout_fault {
+        Some(f) => cmd.env("PLSIM_STDOUT_FAULT", f),
+        None => cmd.env_remove("PLSIM_STDOUT_FAULT"),
+    };
+    let o = cmd
         .arg("cli-child")
         .arg(serde_json::to_string(sim).unwrap())
         .arg("--")
@@ -65,7 +103,8 @@ pub fn run_child(sim: &SimParams, argv: &[&str]) -> Result<(i32, String, String)
         .env_remove("CLICOLOR_FORCE")
         .output()
         .map_err(|e| e.to_string())?;
-    Ok((o.status.code().unwrap_or(-1), String::from_utf8_lossy(&o.stdout).to_string(), String::from_utf8_lossy(&o.stderr).to_string()))
+    let code = o.status.code().unwrap_or_else(|| if stdout_fault.is_some() { -o.status.signal().unwrap_or(1) } else { -1 });
+    Ok((code, String::from_utf8_lossy(&o.stdout).to_string(), String::from_utf8_lossy(&o.stderr).to_string()))
 }
 
 /// Parse the `fixtures list` tree: (relative file path, fixture name) -> usage info text.
